@@ -31,6 +31,8 @@ func main() {
 		runFanout(cfg, rep)
 	case "handoff":
 		runHandoff(cfg, rep)
+	case "settle":
+		runSettle(cfg, rep)
 	default:
 		runStress(cfg, rep)
 	}
